@@ -364,3 +364,108 @@ func runConcDeadline(c *simkit.Choice, r *simkit.Rec) {
 	}
 	r.Outcome = "ok"
 }
+
+// conc-vhost: one plain-TLS server Config holding several certificates serves
+// simultaneous first handshakes that ask for different names. Each client must
+// be shown the certificate that a lone handshake asking for the same name is
+// shown by a fresh, identically built Config.
+func init() {
+	register(Family{Name: "conc-vhost", Prop: "C20", ID: 2009, Weight: 1, PlainBuild: true, RaceBuild: true, FaultNames: concFaults, ReachNames: concReach, Run: runConcVHost})
+}
+
+func runConcVHost(c *simkit.Choice, r *simkit.Rec) {
+	pki.Load()
+	nconn := c.Range(2, 6, simkit.LScen)
+	built := c.Bool(1, 2, simkit.LScen) // BuildNameToCertificate called by the application beforehand
+	order := c.Choose(3, simkit.LScen)  // which certificate comes first in the list
+	names := []string{"server.sim", "server2.sim", "host.wild.sim", "unknown.sim", "SERVER2.sim."}
+	ask := make([]string, nconn)
+	for i := range ask {
+		ask[i] = names[c.Weighted([]int{2, 4, 3, 1, 1}, simkit.LOp)]
+	}
+	pol := drawConcPolicy(c, r, 3000*nconn)
+	ent := uint64(c.Choose(1<<31, simkit.LEntropy))
+	r.Config = fmt.Sprintf("vhost/built%v/order%d", built, order)
+	r.Sig(uint64(nconn) | uint64(boolByte(built))<<4 | uint64(order)<<5 | 9<<24)
+	s := simkit.NewSim(c, pol, 8000000)
+	mkServer := func(seed uint64) *gmtls.Config {
+		certs := []gmtls.Certificate{pki.GMStd("tlsrsa"), pki.GMStd("tlsrsa2"), pki.GMStd("tlswild")}
+		for k := 0; k < order; k++ {
+			certs = append(certs[1:], certs[0])
+		}
+		cfg := &gmtls.Config{Rand: simkit.NewStream(seed), Time: simTime(s, 0), Certificates: certs, CipherSuites: []uint16{0xc02f, 0x009c}, SessionTicketsDisabled: true}
+		if built {
+			cfg.BuildNameToCertificate()
+		}
+		return cfg
+	}
+	type res struct {
+		serial string
+		cerr   string
+		serr   string
+	}
+	one := func(tag string, scfg *gmtls.Config, name string, seed uint64, o *res, done *simkit.Flag) {
+		a, b := s.NewConnPair("c"+tag, "s"+tag, simkit.NetCfg{}, simkit.NetCfg{})
+		cd, sd := &simkit.Flag{Name: "c" + tag}, &simkit.Flag{Name: "s" + tag}
+		s.Spawn("cli"+tag, 0, func() {
+			defer cd.Set()
+			cc := &gmtls.Config{Rand: simkit.NewStream(seed), Time: simTime(s, 0), ServerName: name, InsecureSkipVerify: true, CipherSuites: []uint16{0xc02f, 0x009c}}
+			conn := gmtls.Client(a, cc)
+			err := conn.Handshake()
+			o.cerr = errStr(err)
+			if err == nil {
+				if pcs := conn.ConnectionState().PeerCertificates; len(pcs) > 0 {
+					o.serial = fmt.Sprintf("%s#%x", pcs[0].Subject.CommonName, pcs[0].SerialNumber)
+				}
+			}
+			conn.Close()
+		})
+		s.Spawn("srv"+tag, 1, func() {
+			defer sd.Set()
+			conn := gmtls.Server(b, scfg)
+			o.serr = errStr(conn.Handshake())
+			buf := make([]byte, 16)
+			conn.Read(buf)
+			conn.Close()
+		})
+		s.Spawn("join"+tag, 2, func() {
+			s.WaitFlag(cd)
+			s.WaitFlag(sd)
+			done.Set()
+		})
+	}
+	want := make([]res, nconn)
+	got := make([]res, nconn)
+	shared := mkServer(ent + 5)
+	s.Spawn("driver", 3, func() {
+		// sequential references: a lone handshake per client against a fresh Config
+		for i := 0; i < nconn; i++ {
+			d := &simkit.Flag{Name: fmt.Sprintf("ref%d", i)}
+			one(fmt.Sprintf("r%d", i), mkServer(ent+100+uint64(i)), ask[i], ent+200+uint64(i), &want[i], d)
+			s.WaitFlag(d)
+		}
+		// the concurrent phase: all clients at once against one Config that has served nobody yet
+		ds := make([]*simkit.Flag, nconn)
+		for i := 0; i < nconn; i++ {
+			ds[i] = &simkit.Flag{Name: fmt.Sprintf("conc%d", i)}
+			one(fmt.Sprintf("x%d", i), shared, ask[i], ent+300+uint64(i), &got[i], ds[i])
+		}
+		for _, d := range ds {
+			s.WaitFlag(d)
+		}
+	})
+	s.Run()
+	r.Detail = map[string]interface{}{"program": "conc-vhost", "connections": nconn, "names": ask, "map_built_beforehand": built, "certificate_order": order, "policy": fmt.Sprintf("%+v", pol)}
+	r.Reach(idx(concReach, "config-vhost-handshakes"))
+	site := "gmtls.Config/certificate-selection"
+	if !concFinish(s, r, site) {
+		return
+	}
+	for i := range want {
+		if want[i] != got[i] {
+			r.Violate("result-differs", site, fmt.Sprintf("client %d asking for %q among %d simultaneous first handshakes: served %q (client err %q, server err %q); a lone handshake on a fresh Config: %q (%q, %q)", i, ask[i], nconn, got[i].serial, got[i].cerr, got[i].serr, want[i].serial, want[i].cerr, want[i].serr))
+			return
+		}
+	}
+	r.Outcome = "ok"
+}
